@@ -921,11 +921,6 @@ theorem extra_shape_step (s : PyVal) (a : ExtraArgs) (h : ExtraShape s) : ExtraS
         rw [hm] at this
         cases this
 
-/-- mapping after a history of `Rpms.add` calls (refused ones included) -/
-def runRpms (s : PyVal) (h : List RpmsArgs) : PyVal := h.foldl (fun st a => (Rpms.add st a).1) s
-def runModules (s : PyVal) (h : List ModulesArgs) : PyVal := h.foldl (fun st a => (Modules.add st a).1) s
-def runExtra (s : PyVal) (h : List ExtraArgs) : PyVal := h.foldl (fun st a => (ExtraFiles.add st a).1) s
-
 theorem C12_rpms_reachable (h : List RpmsArgs) : RpmsShape (runRpms empty h) := by
   suffices ∀ s, RpmsShape s → RpmsShape (runRpms s h) from this empty rfl
   induction h with
